@@ -42,6 +42,7 @@ def install_all(reg):
     candidates.install_helpers2(reg)
     candidates.install_edge_accessors(reg)
     candidates.install_nfvs(reg)
+    candidates.install_avoid_list(reg)
     from . import symbolic
     symbolic.install(reg)
     symbolic.install_structure(reg)
